@@ -15,6 +15,7 @@ static CUR_ROUND: AtomicUsize = AtomicUsize::new(0);
 static YIELD_IDX: AtomicUsize = AtomicUsize::new(0);
 static COUNTING: AtomicBool = AtomicBool::new(false);
 static ORDER: AtomicUsize = AtomicUsize::new(0);
+static NOT_REACHED: AtomicUsize = AtomicUsize::new(0);
 
 struct Target {
     round: usize,
@@ -76,6 +77,8 @@ thread_local! { static WRITER_THREAD: std::cell::Cell<bool> = const { std::cell:
 /// turns the creation of a span on that thread into a call of the yield hook.
 struct SpanYield;
 impl tracing::Subscriber for SpanYield {
+    // the verdict depends on the calling thread, so it must not be cached per call site (the default caches the first answer)
+    fn register_callsite(&self, _: &'static tracing::Metadata<'static>) -> tracing::subscriber::Interest { tracing::subscriber::Interest::sometimes() }
     fn enabled(&self, _: &tracing::Metadata<'_>) -> bool { WRITER_THREAD.with(std::cell::Cell::get) }
     fn new_span(&self, _: &tracing::span::Attributes<'_>) -> tracing::span::Id {
         if WRITER_THREAD.with(std::cell::Cell::get) { hook(100); }
@@ -256,6 +259,13 @@ fn controlled(ms: usize, mf: usize, rounds: &[RoundIn], pre: &[(usize, usize, bo
     if crowded.flows().len() > mf {
         fails.push(format!("C15:{}_flows_after_clear_with_max_flows_{mf}", crowded.flows().len()));
     }
+    // the number of scheduling points of a round depends on the state it is applied to (one span per registered flow that is
+    // compared): after a clear released earlier in the same run a later placement may not exist any more.  Such a run exercised
+    // a different schedule than the line says; it is not emitted.
+    if seen_all.iter().any(|s| s.lock().unwrap().is_none()) && !fails.iter().any(|f| f.starts_with("C20:")) {
+        NOT_REACHED.fetch_add(1, Ordering::SeqCst);
+        return;
+    }
     let output = format!("blocked={} obs={} final={}", if blocked.is_empty() { "-".to_string() } else { blocked },
         if obs.is_empty() { "-".to_string() } else { obs.join(";") }, if fin.is_empty() { "torn".to_string() } else { fin.join("|") });
     let input = format!("c20 {ms} {mf} {} {} {}", counts.iter().map(usize::to_string).collect::<Vec<_>>().join(","), if pre_s.is_empty() { "-".to_string() } else { pre_s }, render_rounds(rounds));
@@ -414,5 +424,6 @@ pub fn run(args: &Args, out: &mut Out) {
     rounds.truncate(4);
     if !rounds.is_empty() { stress(10, 4, &rounds, 3, out); }
     out.stat("controlled_placements", placements);
+    out.stat("placements_not_reached_after_an_earlier_clear_(not_emitted)", NOT_REACHED.load(Ordering::SeqCst));
     trippy_core::verif::set_yield_hook(None);
 }
